@@ -34,9 +34,49 @@ Definition events_of (pool : list aset) (h : list cev) : list event :=
 (** One scenario: limit (0 = unlimited), temporality mask, views, instruments,
     attribute-set pool, history, and what ManualReader.Collect returned each time
     (metrics as (name, tag, points), points sorted by the harness). *)
+(** Explicit-bucket histogram metrics in detail: name, tag, the boundaries the SDK reports, and per
+    attribute set the bucket counts, min and max. *)
+Definition hpoint_obs := (aset * (list N * Z * Z))%type.
+Definition hmetric := (bytes * N * list Z * list hpoint_obs)%type.
+
+(** Spec side: some stream of the table with this name and shape must explain every point: its bucket
+    counts / min / max are those of the values routed to the point's set (points a non-finite value reached
+    are judged at count level only, see Spec.windows). *)
+Definition hmetric_spec_ok (runs : list srun) (n : nat) (m : hmetric) : bool :=
+  let '(name, tag, bounds, pts) := m in
+  existsb (fun r : srun =>
+             let '(e, ak, c, ph, _) := r in
+             bytes_eqb (e_name e) name && (meta_of ak (s_delta c) =? tag) &&
+             let rw := routed c (nth n (windows c ph) []) in
+             forallb (fun p : hpoint_obs =>
+                        let '(k, (cnts, mn, mx)) := p in
+                        let vs := vals_at k rw in
+                        existsb is_nf vs || hdetail_ok bounds vs cnts mn mx) pts) runs.
+
+(** Model side: the detailed histogram aggregator [h_run] on the stream's history reports the same. *)
+Definition hmetric_model_ok (runs : list srun) (n : nat) (m : hmetric) : bool :=
+  let '(name, tag, bounds, pts) := m in
+  existsb (fun r : srun =>
+             let '(e, ak, c, ph, _) := r in
+             bytes_eqb (e_name e) name && (meta_of ak (s_delta c) =? tag) &&
+             let hp := nth n (h_run c bounds ph []) [] in
+             forallb (fun p : hpoint_obs =>
+                        let '(k, (cnts, mn, mx)) := p in
+                        match glookup k hp with
+                        | Some hv => is_nf (h_max hv) ||
+                                     (list_eqb N.eqb cnts (h_counts hv) && (mn =? h_min hv)%Z && (mx =? h_max hv)%Z)
+                        | None => false
+                        end) pts) runs.
+
+Fixpoint hobs_ok (f : nat -> hmetric -> bool) (n : nat) (hobs : list (list hmetric)) : bool :=
+  match hobs with
+  | [] => true
+  | ms :: r => forallb (f n) ms && hobs_ok f (S n) r
+  end.
+
 Inductive case :=
 | CScen (L tmask : N) (vs : list view) (is : list inst) (pool : list aset) (h : list cev)
-        (obs : list (list metric))
+        (obs : list (list metric)) (hobs : list (list hmetric))
 (** Concurrent recording: limit, stream shape (sum collected / histogram / last value), the
     attribute sets offered by all goroutines (and the sequential prefill), all recorded values,
     and the points of the one collection that followed. *)
@@ -57,12 +97,12 @@ Definition flag (b : bool) (code : N) : list N := if b then [] else [code].
     its scenario stays in the harness corpus.) *)
 Definition check_case (c : case) : list N :=
   match c with
-  | CScen L tmask vs is pool h obs =>
+  | CScen L tmask vs is pool h obs hobs =>
       let ev := events_of pool h in
       let m := model L tmask vs is ev in
       let runs := stream_runs L tmask vs is ev in     (* the required reports, computed once *)
-      flag (obs_eqb m obs) V_MISMATCH ++
-      (if runs_ok true runs ev obs && obs_at_most_b L obs then
+      flag (obs_eqb m obs && hobs_ok (hmetric_model_ok runs) 0 hobs) V_MISMATCH ++
+      (if runs_ok true runs ev obs && obs_at_most_b L obs && hobs_ok (hmetric_spec_ok runs) 0 hobs then
          if runs_presum_ok runs then []
          else if 1 <=? L then [V_KNOWN 1] else [V_SPECFAIL]
        else [V_SPECFAIL]) ++
